@@ -158,7 +158,7 @@ func runIngest(a *Analyzer, r *Results) {
 				continue
 			}
 			e := vc7[id+"|"+c.name]
-			o := &Obl{Rule: "VC7", Key: "VC7|" + short + "|interfaces.StoreViewChange|net", Props: props("C09", "C11", "C05", "C07"), Engine: "A",
+			o := &Obl{Rule: "VC7", Key: "VC7|" + short + "|interfaces.StoreViewChange|net", Props: props("C09", "C11", "C05", "C07", "C04"), Engine: "A",
 				Text: "a vote is stored only if it carries a block exactly when it carries a non-empty prepared proof (case split " + c.name + ": the store must be unreachable)", Entry: id}
 			if e == nil {
 				o.Status = "discharged"
@@ -234,7 +234,7 @@ func (ig *ingest) onEffect(e *Effect) {
 		if e.Config == "vc-proof-and-block" && storeKind[e.Name] == "VC" && isNetMsg(m) {
 			ev := a.NewEval(e, ig.r)
 			H := hdr(m)
-			ev.Require("VC8", props("C08", "C09", "C11", "C04", "C03"), "a vote carrying both a proof and a block is stored only if the block matches the proof's hash", "net",
+			ev.Require("VC8", props("C08", "C09", "C11", "C04", "C03", "C05"), "a vote carrying both a proof and a block is stored only if the block matches the proof's hash", "net",
 				Truth(Call("interfaces.ValidateBlockCommitment", k.BU, ht(H), blockOf(m), hash(Call("protocol.PreprepareBlockRef", proofOf(H))))))
 		}
 	case e.Kind == "store" && e.Name == "termincommittee.TermInCommittee.latestViewThatProcessedVCMOrNVM":
@@ -275,7 +275,7 @@ func (ig *ingest) deliver(e *Effect) {
 	if e.Entry == idE1 {
 		ev.Require("F1.own", props("C08", "C17"), "a delivered message is not the node's own", "net", Ne(mid(snd(m)), Field(rmf, "myMemberId")))
 		ev.Require("F1.height", props("C08", "C17"), "a delivered message's height equals the current height (not past, not future)", "net", Eq(ht(H), k.SHeight))
-		ev.Require("F1.instance", props("C08", "C17", "C03", "C07"), "a delivered message belongs to this instance", "net", Eq(inst(H), Field(rmf, "instanceId")))
+		ev.Require("F1.instance", props("C08", "C17", "C03", "C07", "C01", "C11"), "a delivered message belongs to this instance", "net", Eq(inst(H), Field(rmf, "instanceId")))
 		ev.Require("F1.handler", props("C17"), "delivery only to a non-nil handler", "net", Ne(This("rawmessagesfilter.ConsensusMessagesHandler"), tNil))
 		ig.exactHeightFilter(ev, "F1.exact", H)
 	} else {
@@ -319,7 +319,7 @@ func (ig *ingest) cacheInsert(e *Effect) {
 	ev.Verdict("F4.form", props("C17"), "cache values are built as []{m} or append(old[key], m) (order preserving)", "net", okForm, "value form "+val.Key())
 	H := hdr(m)
 	ev.Require("F2.own", props("C08", "C17"), "a cached message is not the node's own", "net", Ne(mid(snd(m)), Field(rmf, "myMemberId")))
-	ev.Require("F2.instance", props("C08", "C17", "C03", "C07"), "a cached message belongs to this instance", "net", Eq(inst(H), Field(rmf, "instanceId")))
+	ev.Require("F2.instance", props("C08", "C17", "C03", "C07", "C01", "C11"), "a cached message belongs to this instance", "net", Eq(inst(H), Field(rmf, "instanceId")))
 	ev.Require("F2.future", props("C08", "C17"), "a cached message is for a future height", "net", Lt(k.SHeight, ht(H)))
 	ev.Verdict("F2.key", props("C08", "C17"), "the cache key is the message's own height", "net", ev.Same(key, ht(H)), "key "+key.Key())
 	ev.Require("F5.newest", props("C17"), "only the newest future height is cached", "net", Le(Field(rmf, "latestFutureBlockHeight"), key))
@@ -537,7 +537,7 @@ func (ig *ingest) ingP(e *Effect, m *Term) {
 	ev.Require("P2", props("C08", "C11", "C10", safety), "a network PREPARE is stored only if its sender is a committee member", "net", k.Member(mid(S)))
 	ev.Require("P3", props("C08", "C11", "C10", safety), "a network PREPARE's signed header is typed PREPARE", "net", Eq(mtype(H), k.ProtoConst("LEAN_HELIX_PREPARE")))
 	ev.Require("P4", props("C08"), "a PREPARE from a view below the current one is ignored", "net", Le(k.SView, vw(H)))
-	ev.Require("P5", props("C08", "C11", "C05", "C09"), "a PREPARE from the leader of its view is ignored", "net", Ne(mid(S), k.LeaderOf(vw(H))))
+	ev.Require("P5", props("C08", "C11", "C05", "C09", "C18"), "a PREPARE from the leader of its view is ignored", "net", Ne(mid(S), k.LeaderOf(vw(H))))
 	ig.exactStaleness(ev, "L7.P", H, []string{Le(k.SView, vw(H)).Key()})
 }
 
@@ -764,7 +764,7 @@ func (ig *ingest) ingNV(e *Effect, ev *Eval, m *Term) {
 		}
 	}
 	ev.Verdict("NV9", props("C07", "C04", safety), "every embedded vote's prepared proof passes ValidatePreparedProof", "net", ok9, "no forall(votes, ValidatePreparedProof(height, view, vote.proof, km, Cmt, LeaderOf))")
-	ev.Require("NV10", props("C07"), "every embedded vote's sender is a committee member", "net", ForAll(votes, k.Member(mid(vs))))
+	ev.Require("NV10", props("C07", "C08"), "every embedded vote's sender is a committee member", "net", ForAll(votes, k.Member(mid(vs))))
 	ev.Require("NV11.type", props("C07", "C08"), "every embedded vote's signed header is typed VIEW_CHANGE", "net", ForAll(votes, Eq(mtype(vh), k.ProtoConst("LEAN_HELIX_VIEW_CHANGE"))))
 	ev.Require("NV11.instance", props("C07", "C08"), "every embedded vote belongs to the NEW_VIEW's instance", "net", ForAll(votes, Eq(inst(vh), inst(H))))
 	ev.Require("NV12.view", props("C07", "C08"), "the embedded proposal is for the NEW_VIEW's view", "net", Eq(vw(PH), vw(H)))
